@@ -14,7 +14,7 @@ The time bound after healing is not decided.
 from vplib import expr as E
 from vplib.facts import path_endswith
 from rules import rtps_core as R
-from rules.common import FnCtx, cmp_norm, adder
+from rules.common import FnCtx, cmp_norm, adder, closure_env, subst_captures
 
 TECHNIQUE = "MIR guard-free path search for success sends; who-may-write/who-may-call; call-graph must-accompany for list removals"
 ASSUMPTIONS = ["the worker is the only mutator of writer state (single actor)"]
@@ -79,8 +79,10 @@ def oracle_definition(facts, rep):
     for k in unacked:
         kf = FnCtx(k)
         for bb, t in kf.calls("RtpsReaderProxy::unacked_changes"):
-            a = kf.arg(t, 1)
-            ok = a[0] == "adt" and a[2] == "Some" and a[3] and a[3][0][0] in ("param", "local") and "sequence_number" in a[3][0][2]
+            # in the parent's terms: Some(<the sequence number parameter>) — the closure may capture the parameter or a local holding Some(parameter)
+            a = E.strip_casts(subst_captures(kf.arg(t, 1), closure_env(fc, k)))
+            sn_params = [i + 1 for i, ty in enumerate(b.inputs or []) if ty in ("i64", "SequenceNumber") or ty.endswith("SequenceNumber")]
+            ok = a[0] == "adt" and a[2] == "Some" and a[3] and E.strip_casts(a[3][0])[0] == "param" and E.strip_casts(a[3][0])[1] in sn_params and not E.strip_casts(a[3][0])[2]
             add("R03b", "unacked_changes is asked about the queried sequence number", ok, "argument is %s" % kf.show(a), t.line)
     rel = [k for k in kids if k.calls_any("RtpsReaderProxy::reliability")]
     ok = False
